@@ -28,8 +28,15 @@ META = {
     "hypothesis: a scale residue within stol drifts beyond it on images wider than ~500 px (known finding "
     "paste-scale-drift-differs-from-warp, proved as paste_drift_warp_cex).",
     "technique": "Lean 4 proof over hand model + differential correspondence with real code + GDAL pixel oracle",
+    "unmodelled": "warp.py: rio_reproject's loop over the planes of an N-d array (ydim) and its float NaN default for "
+    "dst_nodata (exercised by the mosaic oracle only); warp_affine / warp_affine_rio (thin wrappers); resampling_s2rio, "
+    "is_resampling_nn; GCP sources; every resampling other than nearest; GDAL's nudging of valid pixels equal to the "
+    "destination nodata (known finding, kept out of the value model).  math.py / overlap.py planning code is modelled in "
+    "Model/C03 (see C03 META).  C09's axis_aligned_iff / C20's helper models are separate copies of is_affine_st / "
+    "maybe_int / snap_scale: not linked by an equivalence theorem yet.",
     "design_ref": "DESIGN.md §4 C10",
 }
+META["note"] += "  NOT MODELLED: " + META["unmodelled"]
 
 DTYPES = ["uint8", "int8", "int16", "uint16", "int32", "float32", "float64", "bool"]
 NODATA = {"uint8": 255, "int8": -128, "int16": -999, "uint16": 65535, "int32": -999, "float32": float("nan"),
@@ -339,6 +346,57 @@ def run(R: Run):
 
         R.corr(f"c10 nnwarp {sshape[0]} {sshape[1]} {dshape[0]} {dshape[1]} {aff_s(A)} {nodata} {img_s(src)}", fw,
                sig="spec-nnwarp|" + kind)
+
+    # --- corpus: the two sides of `paste_tie_cex` (ttol = 0.9, true shift exactly half a pixel) on the real backend
+    tie_src = np.array([[10, 11, 12, 13]], dtype="int16")
+    tie_s, tie_d = gb((1, 4), Affine.identity()), gb((1, 4), Affine.translation(0.5, 0))
+    R.corr("c10 nnwarp 1 4 1 4 1;0;1/2;0;1;0 -1 10,11,12,13",
+           lambda: img_s(rio_reproject(tie_src, np.full((1, 4), -1, dtype="int16"), tie_s, tie_d, "nearest", dst_nodata=-1)),
+           sig="spec-nnwarp|tie")
+
+    def ftie():
+        r_ = O.compute_reproject_roi(tie_s, tie_d, ttol=0.9)
+        assert r_.paste_ok and r_.read_shrink == 1
+        return img_s(do_paste(tie_src, (1, 4), r_, r_.transform.back.linear, -1))
+
+    R.corr("c10 paste 1 4 F F 0:1 0:4 0:1 0:4 -1 10,11,12,13", ftie, sig="paste-op|tie")
+
+    # ================================================================ _rio_reproject detour, value level (model: C10.rioNN)
+    for i in range(R.pick(240, 2400)):
+        t = ["i8", "b", "o"][i % 3]
+        dt = {"i8": "int8", "b": "bool", "o": "int16"}[t]
+        sshape, dshape = (rng.randint(1, 7), rng.randint(1, 7)), (rng.randint(1, 7), rng.randint(1, 7))
+        off = lambda: rng.randint(-6, 8) + rng.choice([0.25, 0.75, 0.375])  # noqa: E731
+        A = Affine(rng.choice([1, 1, -1, 2, 0.5]), 0, off(), 0, rng.choice([1, 1, -1, 2]), off())
+        xx, yy = c03.centres(dshape)
+        px, py = c03.apply_np(faff(A), xx, yy)
+        if (np.abs(px - np.round(px)) < 1e-3).any() or (np.abs(py - np.round(py)) < 1e-3).any():
+            continue
+        init = rng.choice([True, False, False])
+        if t == "b":
+            sn, dn = rng.choice([(None, None), (None, 0), (None, 1), (0, None), (1, 1), (0, 1), (1, 0)])
+            vals = [0, 1]
+        else:
+            lo, hi = (-128, 127) if t == "i8" else (-3000, 3000)
+            sn, dn = rng.choice([(None, None), (None, lo), (None, 5), (hi, None), (7, 7), (7, lo), (lo, hi), (0, None), (None, 0)])
+            vals = [lo, hi, 0, 1, 5, 7, -1, 100, -100, lo + 1, hi - 1]
+        fill = dn if dn is not None else (sn if sn is not None else 0)
+        # valid source pixels never equal the fill value (GDAL would nudge them: known finding, separate key)
+        ok_vals = [v for v in vals if v != fill or v == sn]
+        if not ok_vals or (t == "b" and not [v for v in ok_vals if v != sn]):
+            continue
+        src = np.array([[rng.choice(ok_vals) for _ in range(sshape[1])] for _ in range(sshape[0])])
+        pre = np.array([[rng.choice(vals) for _ in range(dshape[1])] for _ in range(dshape[0])])
+        s_g, d_g = gb(sshape, Affine.identity()), gb(dshape, A)
+
+        def fdet():
+            d_ = pre.astype(dt)
+            conv = (lambda v: None if v is None else bool(v)) if t == "b" else (lambda v: v)
+            rio_reproject(src.astype(dt), d_, s_g, d_g, "nearest", src_nodata=conv(sn), dst_nodata=conv(dn), init_dest_nodata=init)
+            return img_s(d_.astype("int64"))
+
+        R.corr(f"c10 detour {t} {bool_s(init)} {c03.opt_s(sn)} {c03.opt_s(dn)} {sshape[0]} {sshape[1]} {dshape[0]} {dshape[1]} "
+               f"{aff_s(A)} {img_s(src)} {img_s(pre)}", fdet, sig=f"detour|{t}|init{bool_s(init)}")
 
     # ================================================================ GDAL oracle on real plans
     n_pairs = R.pick(420, 4200)
